@@ -85,9 +85,10 @@ Step(S, a) ==
     [] a.t = "WSentinel" -> [S EXCEPT !.buf[a.w] = Append(@, 0), !.wpc[a.w] = "done"]
     [] a.t = "WFlush"    -> [S EXCEPT !.pipe = Append(@, Head(S.buf[a.w])), !.buf[a.w] = Tail(@)]
     [] a.t = "WExit"     -> [S EXCEPT !.wpc[a.w] = "exited"]
-    [] a.t = "WKill"     -> [S EXCEPT !.wpc[a.w] = "dead", !.buf[a.w] = <<>>, !.faults = @ + 1]
+    [] a.t = "WKill"     -> [S EXCEPT !.wpc[a.w] = IF S.wpc[a.w] = "done" /\ S.buf[a.w] = <<>> THEN "dead" ELSE "lost",
+                                      !.buf[a.w] = <<>>, !.faults = @ + 1]
     [] a.t = "WCrash"    -> [S EXCEPT !.wpc[a.w] = "failing", !.faults = @ + 1]
-    [] a.t = "WFailExit" -> [S EXCEPT !.wpc[a.w] = "dead"]
+    [] a.t = "WFailExit" -> [S EXCEPT !.wpc[a.w] = "lost"]      \* a target raises before it has sent its sentinel
     [] a.t = "PStart"    ->
          [S EXCEPT !.wpc = [w \in Workers |-> IF w <= WOf(S.grp) THEN "run" ELSE "none"],
                    !.nsent = 0, !.pq = <<>>, !.ppc = "get"]
@@ -149,7 +150,10 @@ NoAbortWithoutFault == ppc = "aborted" => faults > 0
 Terminal == ppc \in {"finished", "aborted", "crashed"}
 Terminates == <>Terminal                                      \* never hangs (under fairness)
 (* C13: a worker that died before its sentinel reached the pipe can never be counted *)
-Lost(w) == wpc[w] = "dead" /\ ~\E k \in 1..Len(pipe) : FALSE
+(* "lost" = the worker ended abnormally IN its batch: before its end-of-batch marker had left its buffer (before, between *)
+(* or after its results); "dead" = killed after it had handed over everything.  A group with a lost worker is never        *)
+(* collected, so the command can only end by aborting - whether or not all RESULTS had already arrived.                     *)
+EarlyDeathNeverSucceeds == \A w \in Workers : wpc[w] = "lost" => ppc \notin {"join", "drain", "finished"}
 NeverSuccessAfterLoss == [][ppc' = "finished" => out' = Ident(R)]_vars
 (* When the parent's main thread ends, multiprocessing's exit handler JOINS every live non-daemonic   *)
 (* child, and nobody reads the pipe any more: a child that still has more to send than the pipe holds *)
